@@ -679,7 +679,16 @@ inline std::vector<Model> api_models() {
 		MatTransform tflat;
 		tflat.translation = Vector3(3.0f, -2.0f, 0.25f);
 		tflat.scale = 1.5f;
-		NiNode* boneB = chain ? nif.AddNode("BoneB", tb, boneA) : flat ? nif.AddNode("BoneB", tflat, nif.GetRootNode()) : nullptr;
+		NiNode* boneB = flat ? nif.AddNode("BoneB", tflat, nif.GetRootNode()) : nullptr;
+		if (chain) {
+			// the child bone is a node of a DERIVED class (NiBone): a clone has to bring it along as what it is
+			auto nb = std::make_unique<NiBone>();
+			nb->name.get() = "BoneB";
+			nb->SetTransformToParent(tb);
+			uint32_t id = hdr.AddBlock(std::move(nb));
+			boneA->childRefs.AddBlockRef(id);
+			boneB = hdr.GetBlock<NiNode>(id);
+		}
 		NiShape* shape = nif.CreateShapeFromData(chain ? "ApiSkinned" : "ApiPlain", &verts, &tris, &uvs, &norms);
 		if (!shape) vf::fatal(std::string("api model has no shape: ") + v.name);
 		nif.CreateSkinning(shape);
